@@ -14,7 +14,8 @@
 From Coq Require Import List NArith Bool Arith Sorting.Sorted.
 From Storage Require Import Base.Bytes Cursor.StrOrder Cursor.Core Cursor.BoltCursor Cursor.Typed
   Cursor.Filtered Cursor.Union Cursor.Tree Cursor.SetSym Cursor.Cases Cursor.SetSymProofs Cursor.C14Lemmas
-  Cursor.Reuse Cursor.ReuseProofs Cursor.Scanner Cursor.ScannerProofs.
+  Cursor.Reuse Cursor.ReuseProofs Cursor.Scanner Cursor.ScannerProofs
+  Cursor.Product Cursor.ProductProofs.
 Import ListNotations.
 Open Scope nat_scope.
 
@@ -289,3 +290,56 @@ Theorem scan_cursor_over_any_provider : forall St (W : kcursor St) present match
   Ok (page off lim (filter (accept_of present matches) L), length (filter (accept_of present matches) L)).
 Proof. exact scan_cursor_spec. Qed.
 Print Assumptions scan_cursor_over_any_provider.
+
+(* ---- SEVERAL cursors alive at once (Cursor/Product.v) -----------------------------------------------------------------
+
+   A family of cursors of ANY kinds ([machine]: state, step, observation, constructor result), each with its own
+   Next/Seek program, the programs interleaved by ANY schedule (a list of "whose turn"; first turn = constructor,
+   later turns = next operation, turns after the end of the program do nothing), the client looking at ALL cursors
+   after every turn: the views are those of the solo runs, each read at its own pace.  Nothing is assumed about the
+   machines - cursors are values, a turn of one member touches no other - and THAT is what the code must refine:
+   no two hand-outs may share their position. *)
+Theorem interleaved_cursors_do_not_interfere : forall (progs : list (machine * list cop)) sched,
+  prod_views (map start progs) sched = solo_views (map (fun p => solo (fst p) (snd p)) progs) sched.
+Proof. exact non_interference. Qed.
+Print Assumptions interleaved_cursors_do_not_interfere.
+
+(* the same pointwise: after turn k cursor i shows the entry of its solo trace numbered by ITS OWN turns so far *)
+Theorem interleaved_cursor_shows_its_own_trace : forall (progs : list (machine * list cop)) sched k i M ops,
+  nth_error progs i = Some (M, ops) -> k < length sched ->
+  exists v, nth_error (prod_views (map start progs) sched) k = Some v /\
+            nth_error v i = Some (trace_view (solo M ops) (count_occ Nat.eq_dec (firstn (S k) sched) i)).
+Proof. exact non_interference_pointwise. Qed.
+Print Assumptions interleaved_cursor_shows_its_own_trace.
+
+(* [solo] is the single-cursor run the theorems above speak about *)
+Theorem solo_is_the_single_cursor_run : forall St (K : kcursor St) init ops, solo (of_k K init) ops = krun K init ops.
+Proof. exact solo_of_k. Qed.
+Print Assumptions solo_is_the_single_cursor_run.
+Theorem solo_is_the_single_cursor_run_nextonly : forall St (C : scursor St) init n,
+  solo (of_s C init) (repeat CNext n) = srun C init n.
+Proof. exact solo_of_s. Qed.
+Print Assumptions solo_is_the_single_cursor_run_nextonly.
+
+(* product of the refinement theorems: members that refine their position machines alone do so together *)
+Theorem interleaved_cursors_show_their_own_sets : forall (progs : list (machine * list cop)) (sets : list (bool * list str)) sched,
+  Forall2 (fun p fl => solo (fst p) (snd p) = spec_ops (fst fl) (snd fl) (snd p)) progs sets ->
+  prod_views (map start progs) sched =
+  solo_views (map (fun x => spec_ops (fst (snd x)) (snd (snd x)) (snd (fst x))) (combine progs sets)) sched.
+Proof. exact non_interference_spec. Qed.
+Print Assumptions interleaved_cursors_show_their_own_sets.
+
+(* the families the harness puts into one transaction ([cdesc]: runtime set symbols, typed / raw hand-outs, bolt and typed
+   adapters, the id scanner, tree / union / filtered cursors), under the side conditions of the single-cursor theorems *)
+Theorem interleaved_cursor_families_refine : forall tag (progs : list (cdesc * list cop)) sched,
+  Forall (fun p => desc_ok (fst p) (snd p)) progs -> multi_run tag progs sched = multi_spec progs sched.
+Proof. exact multi_run_spec. Qed.
+Print Assumptions interleaved_cursor_families_refine.
+
+(* several cursors of ONE set symbol (GetSymbol(set) .. OpenCursor), on any rows - the same row several times, rows
+   without the bucket - in any interleaving: each shows the position machine over its own row's set *)
+Theorem interleaved_setsym_cursors_show_their_own_rows : forall tag (rows : list (option (list str) * list cop)) sched,
+  multi_run tag (map (fun r => (DSetsym (fst r), snd r)) rows) sched =
+  solo_views (map (fun r => spec_ops true (bucket_elems (fst r)) (snd r)) rows) sched.
+Proof. exact setsym_family_spec. Qed.
+Print Assumptions interleaved_setsym_cursors_show_their_own_rows.
